@@ -135,10 +135,13 @@ def str_const(s: str):
     return _str_consts[s]
 
 
-def str_distinct_facts():
-    cs = list(_str_consts.values())
+def str_distinct_facts(occurring=None):
+    """literal strings / function constants are pairwise distinct.  With `occurring` (a set of constant names) only the constants that
+    occur in the query are mentioned: the query text then does not depend on which other functions the process verified before
+    (a Distinct over unrelated constants is harmless logically but perturbed the solvers: an order-dependent `unknown`)."""
+    cs = [c for c in _str_consts.values() if occurring is None or c.decl().name() in occurring]
     out = [z3.Distinct(*cs)] if len(cs) > 1 else []
-    fs = list(_fn_consts.values())
+    fs = [f for f in _fn_consts.values() if occurring is None or f.decl().name() in occurring]
     if len(fs) > 1:
         out.append(z3.Distinct(*fs))
     out.append(card(EMPTY_SET) == 0)  # the empty set has no element (global axiom of the uninterpreted cardinality)
